@@ -165,7 +165,8 @@ _ABSTRACT_MAPPING: t.Mapping[type, type] = t.cast(t.Mapping[type, type], {
 
 
 def _make_converter_key_f(ty: IntoConverter, handlers: ConverterHandlers = ConverterHandlers()) -> t.Any:
-    return (id(ty), handlers)
+    # (and the number of registered global handlers: a converter made before a handler was registered is out of date)
+    return (id(ty), handlers, len(_GLOBAL_HANDLERS))
 
 
 @t.overload
